@@ -1171,6 +1171,15 @@ impl NamingActor {
             self.update_service(service_detail);
         }
         for mut instance in snapshot.instances {
+            // a peer's mirror of an instance that this node already manages itself is only a
+            // reflection of this node's own (newer) data: applying it would restart the
+            // instance's time-out clock and overwrite its health with the peer's stale copy
+            if self.node_id > 0 && instance.from_cluster == self.node_id {
+                let own = self.get_instance(&instance.get_service_key(), &instance.get_short_key());
+                if own.map(|e| !e.is_from_cluster()).unwrap_or(false) {
+                    continue;
+                }
+            }
             self.update_instance(&instance.get_service_key(), instance, None, true, None);
         }
     }
